@@ -100,6 +100,9 @@ func solveObl(vc *VC, o *Obl, dir string, tier string, seed int, idx int) {
 		}
 	}
 	quickT, slowT := 8, 30
+	if tier == "candidate" {
+		quickT = 6
+	}
 	if tier == "thorough" {
 		quickT, slowT = 20, 90
 	}
@@ -166,6 +169,11 @@ func solveObl(vc *VC, o *Obl, dir string, tier string, seed int, idx int) {
 		}
 		cancel()
 	}
+	if !decided && tier == "candidate" {
+		// Houdini pre-pass: a candidate invariant that is not proved at once is simply dropped
+		o.Result, o.Solver = "unknown", final.solver
+		return
+	}
 	if !decided {
 		t := slowT
 		if candidate != nil && tier != "thorough" {
@@ -178,11 +186,13 @@ func solveObl(vc *VC, o *Obl, dir string, tier string, seed int, idx int) {
 			n++
 			go func(s solverSpec) { ch <- tagged{runSolver(cctx, s, file, t, seed), false} }(s)
 		}
+		// the best solver gets the long budget on the full script in any case: a quantified goal that
+		// needs a few seconds misses the short budget on a loaded machine, and the axiom-free
+		// variants' "sat" says nothing about it
+		n++
+		go func() { ch <- tagged{runSolver(cctx, solvers[0], file, slowT, seed+1), false} }()
 		if candidate == nil {
-			// nothing answered within the short budget (a loaded machine, or a genuinely hard
-			// query): give the best solver the long budget as well, on every variant
-			n++
-			go func() { ch <- tagged{runSolver(cctx, solvers[0], file, t, seed+1), false} }()
+			// nothing answered within the short budget: the long budget on every variant
 			if fileNA != file {
 				n++
 				go func() { ch <- tagged{runSolver(cctx, solvers[0], fileNA, t, seed+1), true} }()
